@@ -10,7 +10,7 @@ import os
 
 import vlib
 
-PROPS = ['Rangers.Props.C14', 'Rangers.Props.C14E', 'Rangers.Props.C14U']
+PROPS = ['Rangers.Props.C14', 'Rangers.Props.C14E', 'Rangers.Props.C14U', 'Rangers.Props.C14G']
 DRIVERS = ['C14']
 META = dict(
     level='proof',
@@ -25,6 +25,31 @@ META = dict(
     rule='distinct op lines sent to both implementation and model whose model answer is not bad-op',
     explanation='',
 )
+
+
+GEN_FILES = ('Bls14Consts.lean', 'Bls14Shape.lean')
+
+
+def gen(ctx):
+    """T-gen: regenerate Generated/Bls14*.lean from ctx.repo (constants + statement shapes)."""
+    rc, so, se = vlib.go_run_gen(ctx, 'c14facts', [])
+    if rc != 0:
+        return dict(ok=False, error='c14facts failed: ' + (se or so)[-600:])
+    parts, cur = {}, None
+    for line in so.split('\n'):
+        if line.startswith('-----FILE '):
+            cur = line[len('-----FILE '):].strip()
+            parts[cur] = []
+        elif cur:
+            parts[cur].append(line)
+    if set(parts) != set(GEN_FILES):
+        return dict(ok=False, error='c14facts wrote %s, expected %s' % (sorted(parts), sorted(GEN_FILES)))
+    changed = []
+    for name in GEN_FILES:
+        txt = '\n'.join(parts[name]).rstrip('\n') + '\n'
+        if vlib.write_if_changed(os.path.join(vlib.LEAN, 'Rangers', 'Generated', name), txt):
+            changed.append(name)
+    return dict(ok=True, files=list(GEN_FILES), changed=changed)
 
 
 def canon(op, ans):
